@@ -49,6 +49,17 @@ StoredFlag(f) == IF f \in {"i", "o", "u"} THEN f ELSE "*"
 \*          token is yerr.  So "x y inf" (blank flag, yerr = +inf) is a row with yerr = +inf and the
 \*          default flag, NOT a row with flag i.  x, y, yerr come back unchanged (nan as nan).
 \*   Not representable: a blank/NUL flag (read back as the default 'i': nothing demanded, "*").
+\* Comment (Table::set_comment, written by Save as "# ..." lines, table.cc): a real newline or the two
+\* characters backslash-n in the text start a new comment line ("\n# "), so that NO line of the comment
+\* can be taken for data: Load returns exactly the rows written, whatever the comment says.
+\* com: 0 none; 1 one line; 2 two lines separated by the escape backslash-n; 3 two lines separated by a
+\* real newline; 4 real newlines, the continuation lines look like data rows ("0.05 17", "3 4 i")
+Comment(com) ==
+  CASE com = 0 -> [lines |-> <<>>, sep |-> "none"]
+    [] com = 1 -> [lines |-> <<"created by hand">>, sep |-> "none"]
+    [] com = 2 -> [lines |-> <<"first line", "second line">>, sep |-> "escape"]
+    [] com = 3 -> [lines |-> <<"first line", "second line">>, sep |-> "newline"]
+    [] OTHER   -> [lines |-> <<"note", "0.05 17", "3 4 i">>, sep |-> "newline"]
 \* nf: 0 finite; 1 non-finite yerr; 2 non-finite y; 3 both (x stays finite)
 TableVec(n, hasy, com, p, fp, nf) ==
   LET x == [i \in 1..n |-> Num(p, i, 1, 10)]
@@ -56,7 +67,7 @@ TableVec(n, hasy, com, p, fp, nf) ==
       e == [i \in 1..n |-> IF nf \in {1, 3} THEN Special(i + 2) ELSE Num(p, i, 3, 10)]
       fl == [i \in 1..n |-> Flag(p, fp, i)]
   IN [kind |-> "table",
-      inp |-> [n |-> n, hasyerr |-> hasy, comment |-> com, x |-> x, y |-> y, yerr |-> e, flags |-> fl],
+      inp |-> [n |-> n, hasyerr |-> hasy, comment |-> Comment(com), x |-> x, y |-> y, yerr |-> e, flags |-> fl],
       exp |-> [n |-> n, x |-> x, y |-> y, flags |-> [i \in 1..n |-> StoredFlag(fl[i])],
                hasyerr |-> hasy, yerr |-> IF hasy THEN e ELSE <<>>]]
 
@@ -128,9 +139,9 @@ IndexVec(bs1, bs2, two) ==
       exp |-> [k \in 1..Len(rs) |-> [name |-> rs[k].name, values |-> EnumBlocks(rs[k].blocks)]]]
 
 Vectors ==
-     { TableVec(n, hy, com, p, fp, 0) : n \in TableN, hy \in BOOLEAN, com \in BOOLEAN, p \in Pids, fp \in 0..1 }
+     { TableVec(n, hy, com, p, fp, 0) : n \in TableN, hy \in BOOLEAN, com \in 0..4, p \in Pids, fp \in 0..1 }
   \* non-finite y / yerr with every flag (incl. blank and NUL) on every row
-  \cup { TableVec(n, hy, FALSE, p, fp, nf) : n \in TableN \ {0}, hy \in BOOLEAN, p \in {0}, fp \in 0..4, nf \in 1..3 }
+  \cup { TableVec(n, hy, 0, p, fp, nf) : n \in TableN \ {0}, hy \in BOOLEAN, p \in {0}, fp \in 0..4, nf \in 1..3 }
   \cup { TextVec(n, p, d) : n \in {1, 3}, p \in {0, 2}, d \in [1..6 -> BOOLEAN] }
   \cup UNION { { MatrixVec(r, c, p, sel) : sel \in Sels(r, c) } : r \in RowSet, c \in ColSet, p \in Pids }
   \cup UNION { { DsVec(n, p, sel) : sel \in ({<<>>} \cup IF n >= 3 THEN {<<1, 3>>} ELSE {}) } : n \in TableN \ {0}, p \in Pids }
@@ -169,6 +180,9 @@ NonFiniteCovered ==
      \E w \in Vectors : /\ w.kind = "table" /\ w.inp.hasyerr
                          /\ \E i \in 1..w.inp.n : w.inp.flags[i] = f /\ w.inp.yerr[i] = sp
 ASSUME NonFiniteCovered
+
+\* a multi-line comment whose continuation looks like a data row occurs, also for the empty table
+ASSUME \E w \in Vectors : w.kind = "table" /\ w.inp.n = 0 /\ w.inp.comment.sep = "newline" /\ Len(w.inp.comment.lines) = 3
 
 Leaf == Emit => PrintT(ToJson(v))
 =============================================================================
